@@ -856,3 +856,33 @@ func CondsAtDeep(b *ssa.BasicBlock) []Cond {
 	}
 	return out
 }
+
+// RetVal returns the i-th result of r, looking through the defer/closure
+// spill of named results: `*cell = v; rundefers; t = *cell; return t` yields v
+// (the last store to the cell in the returning block).
+func RetVal(r *ssa.Return, i int) ssa.Value {
+	v := r.Results[i]
+	u, ok := v.(*ssa.UnOp)
+	if !ok || u.Op != token.MUL {
+		return Resolve(v)
+	}
+	al, ok := u.X.(*ssa.Alloc)
+	if !ok {
+		return Resolve(v)
+	}
+	instrs := r.Block().Instrs
+	for j := len(instrs) - 1; j >= 0; j-- {
+		if st, ok := instrs[j].(*ssa.Store); ok && st.Addr == ssa.Value(al) {
+			return Resolve(st.Val)
+		}
+	}
+	return Resolve(v)
+}
+
+// RetErrIsNil: the last result of r is the nil constant.
+func RetErrIsNil(r *ssa.Return) bool {
+	if len(r.Results) == 0 {
+		return false
+	}
+	return IsNilConst(RetVal(r, len(r.Results)-1))
+}
